@@ -411,13 +411,17 @@ fn build_clone_for_enum(
         });
     }
     let wheres = wcb.build(|ty| quote!(#ty : #trait_));
+    // `match self {}` on `&Self` is rejected for an enum without variants (E0004).
+    let clone_body = if variants.is_empty() {
+        quote!(match *self {})
+    } else {
+        quote!(match self { #(#arms_clone,)* })
+    };
     Ok(quote! {
         #[automatically_derived]
         impl #impl_g #trait_ for #this_ty #wheres {
             fn clone(&self) -> Self {
-                match self {
-                    #(#arms_clone,)*
-                }
+                #clone_body
             }
             fn clone_from(&mut self, source: &Self) {
                 match (self, source) {
@@ -545,13 +549,17 @@ fn build_debug_for_enum(
         arms.push(quote!(#pat => #expr));
     }
     let wheres = wcb.build(|ty| quote!(#ty : #trait_));
+    // `match self {}` on `&Self` is rejected for an enum without variants (E0004).
+    let fmt_body = if variants.is_empty() {
+        quote!(match *self {})
+    } else {
+        quote!(match self { #(#arms,)* })
+    };
     Ok(quote! {
         #[automatically_derived]
         impl #impl_g #trait_ for #this_ty #wheres {
             fn fmt(&self, f: &mut ::core::fmt::Formatter) -> ::core::fmt::Result {
-                match self {
-                    #(#arms,)*
-                }
+                #fmt_body
             }
         }
     })
